@@ -859,7 +859,9 @@ func (c *clipperBase) doHorizontal(horz *Active) {
 
 		for ae != nil {
 			c.vs.tick("doHorizontal")
-			if ae.vertexTop == vertexMax {
+			// (an open path's horizontal run may double back on itself, so its
+			// maxima pair can lie within reach of a segment that isn't the last)
+			if ae.vertexTop == vertexMax && (!horzIsOpen || horz.vertexTop == vertexMax) {
 				if isHotEdge(horz) && isJoined(ae) {
 					c.split(ae, ae.top)
 				}
